@@ -57,12 +57,29 @@ pub struct Current {
 }
 
 pub fn run_one(prop: &dyn Prop, corpus: &Corpus, seed: u64, idx: u64, current: Option<&Arc<Mutex<Current>>>) -> RunResult {
+    run_one_traced(prop, corpus, seed, idx, current, None)
+}
+
+fn trace_line(path: &str, truncate: bool, line: &str) {
+    use std::io::Write;
+    let f = std::fs::OpenOptions::new().create(true).write(true).append(!truncate).truncate(truncate).open(path);
+    if let Ok(mut f) = f {
+        let _ = f.write_all(line.as_bytes());
+        let _ = f.write_all(b"\n");
+    }
+}
+
+pub fn run_one_traced(prop: &dyn Prop, corpus: &Corpus, seed: u64, idx: u64, current: Option<&Arc<Mutex<Current>>>, trace: Option<&str>) -> RunResult {
     let mut rng = Rng::for_run(seed, prop.tag(), idx);
     if prop.uses_cache() {
         scnr::verif::clear_scanner_cache();
     }
     let _ = sut::take_marks();
     let world = prop.gen_world(&mut rng, corpus);
+    if let Some(t) = trace {
+        trace_line(t, true, &format!("RUN {}", idx));
+        trace_line(t, false, &format!("WORLD {}", serde_json::to_string(&world).unwrap()));
+    }
     if let Some(c) = current {
         let mut c = c.lock().unwrap();
         c.run = idx;
@@ -79,6 +96,9 @@ pub fn run_one(prop: &dyn Prop, corpus: &Corpus, seed: u64, idx: u64, current: O
         while let Some(op) = gen.next_op(&mut rng) {
             if let Some(c) = current {
                 c.lock().unwrap().ops.push(op.clone());
+            }
+            if let Some(t) = trace {
+                trace_line(t, false, &format!("OP {}", serde_json::to_string(&op).unwrap()));
             }
             let out = exec.step(ops.len(), &op);
             op.hash(&mut h);
@@ -178,6 +198,9 @@ pub struct WorkerArgs {
     pub want_hashes: bool,
     pub hang_secs: u64,
     pub deadline_secs: u64,
+    /// write-ahead trace (world and every operation BEFORE it is executed); used to locate a run
+    /// that kills the worker process (abort, segfault)
+    pub trace: Option<String>,
 }
 
 pub fn mix(idx: u64, h: u64) -> u64 {
@@ -235,7 +258,7 @@ pub fn worker(prop: &dyn Prop, a: &WorkerArgs) -> i32 {
             break;
         }
         beat.fetch_add(1, Ordering::SeqCst);
-        let r = run_one(prop, &corpus, a.seed, idx, Some(&current));
+        let r = run_one_traced(prop, &corpus, a.seed, idx, Some(&current), a.trace.as_deref());
         rep.runs += 1;
         rep.steps += r.ops.len() as u64;
         if r.aborted {
